@@ -115,7 +115,12 @@ def check_documented_intervals(ctx, case, real):
     parser = cli.get_argument_parser()
     _, in_args = pipe.inputs_of(case)
     args = parser.parse_args(list(argv) + in_args)
-    ads = cli.adapters_from_args(args)
+    import logging
+    logging.disable(logging.CRITICAL)
+    try:
+        ads = cli.adapters_from_args(args)
+    finally:
+        logging.disable(logging.NOTSET)
     outs = {}
     for fn, side, recs in pipeprop.output_roles(case, real):
         if fn.startswith("o"):
@@ -161,7 +166,12 @@ def linked_retain(ctx, case, real):
     import pipe
     parser = cli.get_argument_parser()
     _, in_args = pipe.inputs_of(case)
-    ad = cli.adapters_from_args(parser.parse_args(list(argv) + in_args))[0][0]
+    import logging
+    logging.disable(logging.CRITICAL)
+    try:
+        ad = cli.adapters_from_args(parser.parse_args(list(argv) + in_args))[0][0]
+    finally:
+        logging.disable(logging.NOTSET)
     outs = {rid(r[0]): r for fn, side, recs in pipeprop.output_roles(case, real) for r in recs}
     for name, s, q in case["reads1"]:
         fm = ad.front_adapter.match_to(s)
